@@ -672,7 +672,12 @@ type detKey struct{ trace, sync, out, steps, switches uint64 }
 
 func (x *c17) determinism(nSeeds uint64) (pairs int, diverged []string, tr string) {
 	type row map[uint64]detKey
-	cfgs := []int{1, 1, 4, 16}
+	// Runs in which pools retain items are compared between two single-P
+	// processes only: sync.Pool keeps per-P caches, so with several Ps which
+	// Get hits a cached item is the runtime's business.  The multi-P
+	// configurations are compared in the mode in which pools retain nothing.
+	cfgs := []int{1, 1, 1, 4, 16}
+	noRetain := []bool{false, false, true, true, true}
 	rows := make([]row, len(cfgs))
 	var wg sync.WaitGroup
 	var mu sync.Mutex
@@ -687,7 +692,11 @@ func (x *c17) determinism(nSeeds uint64) (pairs int, diverged []string, tr strin
 				from := base + part*nSeeds/4
 				to := base + (part+1)*nSeeds/4
 				for from < to {
-					po := x.spawn(gmp, 240*time.Second, "-base", fmt.Sprint(x.e.seed), "-from", fmt.Sprint(from), "-to", fmt.Sprint(to), "-profile", "mixed")
+					dargs := []string{"-base", fmt.Sprint(x.e.seed), "-from", fmt.Sprint(from), "-to", fmt.Sprint(to), "-profile", "mixed"}
+					if noRetain[ci] {
+						dargs = append(dargs, "-noretain")
+					}
+					po := x.spawn(gmp, 240*time.Second, dargs...)
 					last := from
 					mu.Lock()
 					for i := range po.lines {
@@ -721,15 +730,15 @@ func (x *c17) determinism(nSeeds uint64) (pairs int, diverged []string, tr strin
 		return
 	}
 	for i := base; i < base+nSeeds; i++ {
-		k0, ok0 := rows[0][i]
-		for ci := 1; ci < len(cfgs); ci++ {
-			k, ok := rows[ci][i]
+		for _, pr := range [][2]int{{0, 1}, {2, 3}, {2, 4}} {
+			k0, ok0 := rows[pr[0]][i]
+			k, ok := rows[pr[1]][i]
 			if !ok0 || !ok {
 				continue // that run failed; failures are handled by the sweep
 			}
 			pairs++
 			if k != k0 {
-				diverged = append(diverged, fmt.Sprintf("run %d: GOMAXPROCS=%d gave %+v, GOMAXPROCS=%d gave %+v", i, cfgs[0], k0, cfgs[ci], k))
+				diverged = append(diverged, fmt.Sprintf("run %d: GOMAXPROCS=%d gave %+v, GOMAXPROCS=%d gave %+v", i, cfgs[pr[0]], k0, cfgs[pr[1]], k))
 			}
 		}
 	}
@@ -1156,7 +1165,7 @@ func mainC17(e *env) {
 		}
 		trouble(e, "the simulation is not deterministic on this tree (%d divergences); results would not replay", len(div)+len(rdiv))
 	}
-	fmt.Printf("  determinism: %d cross-process pairs (GOMAXPROCS 1/1/4/16) identical, %d recorded schedules replayed identically (%.1fs)\n", pairs, rchk, detS)
+	fmt.Printf("  determinism: %d cross-process pairs (GOMAXPROCS 1/1, 1/4, 1/16) identical, %d recorded schedules replayed identically (%.1fs)\n", pairs, rchk, detS)
 
 	a := newAgg()
 	t1 := time.Now()
@@ -1299,7 +1308,7 @@ func mainC17(e *env) {
 		"pb1_cases":                     pbC,
 		"pb1_single_preemption_schedules": pbS,
 		"determinism_pairs_identical":   pairs,
-		"determinism_gomaxprocs":        []int{1, 1, 4, 16},
+		"determinism_gomaxprocs":        []int{1, 1, 1, 4, 16},
 		"replayed_schedules_identical":  rchk,
 		"instrumentation":               x.instr,
 		"build_seconds":                 x.buildS,
